@@ -68,6 +68,9 @@ impl Engine for Sinks {
             Tier::Thorough => (8usize, 4u64),
         };
         let mut out = Vec::new();
+        // several threads writing at the same moment into a buffer that holds everything: every event must be there
+        out.push(Case { lines: vec![format!("stress 1000000 4 {}", if tier == Tier::Quick { 20000 } else { 100000 })] });
+        out.push(Case { lines: vec![format!("stress 1000000 2 {}", if tier == Tier::Quick { 20000 } else { 100000 })] });
         // zero-sized events: every capacity up to 4 (and 16, 17), up to 3 * capacity + 2 writes, a few reads in between
         for cap in [1usize, 2, 3, 4, 16, 17] {
             for n in [0, 1, cap, cap + 1, 2 * cap + 1, 3 * cap + 2] {
@@ -118,7 +121,8 @@ impl Engine for Sinks {
 
     fn gen(&self, rng: &mut Rng, _idx: usize, tier: Tier, _focus: &str) -> Case {
         if rng.chance(1, if tier == Tier::Quick { 60 } else { 200 }) {
-            let cap = *rng.pick(&[1u64, 2, 3, 4, 7]);
+            // small buffers (only the most recent arrivals survive) and buffers that hold everything (nothing may be missing)
+            let cap = *rng.pick(&[1u64, 2, 3, 4, 7, 1_000_000]);
             return Case { lines: vec![format!("stress {cap} {} {}", rng.range(2, 6), rng.range(2000, 20000))] };
         }
         let kind = rng.weighted(&[5, 2, 2]);
